@@ -57,7 +57,7 @@ def reference_logs(v, tier):
 
 def run(v, tier, seed, replay=None):
     meta, _ = common.translate()
-    ok, failed, info = coqrun.prove(v, 'C05', ['Inst/FileEq.v'])
+    ok, failed, info = coqrun.prove(v, 'C05', ['Inst/FileEq.v', 'Inst/StreamRT.v'])
     res = filerun.run(meta, seed, tier)
     ndis = filerun.report_disagreements(v, res, 'C05', kinds=('w',))
     ndis += sum(1 for r in res['r'] if r['mode'] == 'full' and not filerun.fr_agree(r['model'], r['impl']))
@@ -80,7 +80,7 @@ def run(v, tier, seed, replay=None):
         'rule': 'write sessions as for C04 (levels 0-9 x container sizes x restore points x caller-supplied header members x 0..8 objects); the header bytes on disk are compared with an independent recomputation from the container walk (fileSize, uncompressedFileSize, objectCount, restorePointsOffset, caller-supplied members verbatim); every complete file is read back by the model and by the real reader and the running counters compared with the header; the same for the Vector-written reference logs. Non-trivial = session with at least one object.',
         'headers_recomputed': checked, 'complete_files_read_back': nread, 'reference_logs_read': nlogs,
         'correspondence_disagreements': ndis,
-        'theorems': ['C05_header'],
+        'theorems': ['C05_header', 'C05_reader_counts_as_header', 'C05_count_example'],
         'not_a_theorem_yet': 'reader counters = header values (decided by the correspondence run on written files and reference logs)',
     })
     v.coverage.update(cov)
